@@ -46,10 +46,10 @@ CLAIMED = {
          "no-op without port/text; every sequence of requests against a conforming board (each line preceded by <= 100 empty reads) returns request k's own data line and consumes exactly its replies.",
          NOTE_COMMON, "DESIGN.md section 5, C07"),
  "C08": ("Coq proof (field/lra over Q): Cohen-Sutherland invariant, termination measure, exact result; Fractions correspondence; floats judged by a sandwich checker",
-         "Theorems C08_result, C08_accept_iff, C08_no_div0, C08_measure, C08_reference_interval: for all rational segments and rectangles (min<=max) the model of clip_segment accepts iff some point of the segment is inside, "
+         "Theorems C08_result, C08_accept_iff, C08_no_div0, C08_measure, C08_reference_interval, C08_judgement_reject, C08_judgement_accept: for all rational segments and rectangles (min<=max) the model of clip_segment accepts iff some point of the segment is inside, "
          "returns seg(t1), seg(t2) with 0<=t1<=t2<=1 covering every inside parameter, never divides by zero, never reaches the failsafe (each clip lowers the number of violated sides). "
          "The code runs unchanged on Fractions and is compared exactly; float runs are judged in exact arithmetic with eps = 1e-9 x scale. clip_code is re-translated from the source on every run (py2v) and proved equal to the model's region flags.",
-         NOTE_COMMON + "Float rounding staying inside the tolerance is sampled, not proved; the reference interval of the sandwich checker is proved to be the exact inside part (C08_reference_interval); its tolerance arithmetic (distances to within eps) is an executable specification.", "DESIGN.md section 5, C08"),
+         NOTE_COMMON + "Float rounding staying inside the tolerance is sampled, not proved; the reference interval of the sandwich checker is proved to be the exact inside part (C08_reference_interval); and what a passing rejection / acceptance certifies is proved (C08_judgement_reject / _accept); the orientation and coverage clauses of the judgement are as written in Corr/C08.v.", "DESIGN.md section 5, C08"),
  "C09": ("Coq proof: predicate = true point-segment distance (nra over Q), reduction relation by induction on the nested loops; Fractions correspondence with object identity",
          "Theorems C09_predicate_is_distance, C09_points_in_tolerance, C09_reduction, C09_subsequence, C09_unchanged: the fast predicate accepts a point iff some point of the chord is strictly "
          "closer than the tolerance; supersample only deletes, keeps first and last vertex, and every deleted vertex passes that test against the segment joining its surviving neighbours.",
